@@ -68,7 +68,9 @@ class Weird:
         self.n = n
 
     def __repr__(self):
-        return f"<Weird {self.n}>"
+        # four ways of not being an expression: no code at all, code followed by a comment,
+        # a statement, several lines
+        return [f"<Weird {self.n}>", f"Weird #{self.n}", f"weird={self.n}", f"Weird\n{self.n}"][self.n % 4]
 
     def __eq__(self, other):
         if type(other) is Weird:
